@@ -201,7 +201,7 @@ Definition Wp0 (c : ctrl) (k : nat) (d : pdata) : Prop :=
   | CPort => forallb is_digit pend = true
   | CIpLit => pend = []
   | CFutV | CFutHex | CFutLoop1 | CFutLoop => forallb is_lit_char pend = true /\ v_start pend = true
-  | CV6 _ _ _ _ _ | CV6Colon _ _ | CV6CC _ => forallb is_ip6_char pend = true
+  | CV6 _ _ _ _ _ | CV6Colon _ _ | CV6CC _ => forallb is_ip6_char pend = true /\ pend <> []
   | CSeg sk =>
     forallb is_pchar pend = true /\ pct_scan 0 pend = Some k /\
     match sk with
@@ -412,7 +412,8 @@ Qed.
 Lemma Wp0_fut c k d : fut_state c = true ->
   (Wp0 c k d <-> forallb is_lit_char (p_pend d) = true /\ v_start (p_pend d) = true).
 Proof. destruct c; try discriminate; intros _; reflexivity. Qed.
-Lemma Wp0_v6 c k d : v6_state c = true -> (Wp0 c k d <-> forallb is_ip6_char (p_pend d) = true).
+Lemma Wp0_v6 c k d : v6_state c = true ->
+  (Wp0 c k d <-> forallb is_ip6_char (p_pend d) = true /\ p_pend d <> []).
 Proof. destruct c; try discriminate; intros _; reflexivity. Qed.
 Lemma lit_pre_host c : lit_state c = true -> pre_host c = true.
 Proof. destruct c; try discriminate; reflexivity. Qed.
@@ -436,15 +437,15 @@ Proof.
     wunfold_in HWu; wfields_in HWu; wunfold; wfields; split_hyps; wsplit; solve [watom].
   - cbn [Wp0 p_pend PD] in HWp. subst. rewrite (lit_W _ _ (v6_lit _ Hc')).
     split; [exact HWu|]. split; [rewrite (lit_pre_host _ (v6_lit _ Hc')); discriminate|].
-    apply (Wp0_v6 _ _ _ Hc'). facts ch Eb; try discriminate Ha. all: wfields; solve [watom].
+    apply (Wp0_v6 _ _ _ Hc'). facts ch Eb; try discriminate Ha. all: wfields; wsplit; solve [watom].
   - apply (Wp0_fut _ _ _ Hc) in HWp. rewrite (lit_W _ _ (fut_lit _ Hc')).
     split; [exact HWu|]. split; [rewrite (lit_pre_host _ (fut_lit _ Hc')); discriminate|].
     apply (Wp0_fut _ _ _ Hc'). wfields_in HWp. facts ch Eb; try discriminate Ha. all: wfields; split_hyps; wsplit; solve [watom].
   - apply (Wp0_v6 _ _ _ Hc) in HWp. rewrite (lit_W _ _ (v6_lit _ Hc')).
     split; [exact HWu|]. split; [rewrite (lit_pre_host _ (v6_lit _ Hc')); discriminate|].
-    apply (Wp0_v6 _ _ _ Hc'). wfields_in HWp. facts ch Eb; try discriminate Ha. all: wfields; solve [watom].
+    apply (Wp0_v6 _ _ _ Hc'). wfields_in HWp. destruct HWp as [HWp HWne]. facts ch Eb; try discriminate Ha. all: wfields; wsplit; solve [watom].
   - apply (Wp0_fut _ _ _ Hc) in HWp. wfields_in HWp.
     wunfold_in HWu; wfields_in HWu; wunfold; wfields; split_hyps; wsplit; solve [watom].
-  - apply (Wp0_v6 _ _ _ Hc) in HWp. wfields_in HWp. pose proof (ip6_not_v _ HWp).
+  - apply (Wp0_v6 _ _ _ Hc) in HWp. wfields_in HWp. destruct HWp as [HWp HWne]. pose proof (ip6_not_v _ HWp).
     wunfold_in HWu; wfields_in HWu; wunfold; wfields; split_hyps; wsplit; solve [watom].
 Qed.
